@@ -337,12 +337,82 @@ def _resolve_tail(case):
     return case
 
 
+# ---- coverage-guided tier (atheris / libFuzzer), thorough only -----------------------------------
+
+
+def fuzz_cases(tier, seed):
+    for shard in range(16):
+        yield {"fuzz_shard": shard, "runs": 40000, "seed": seed * 100 + shard + 1}
+
+
+def check_fuzz(case):
+    """runs one libFuzzer campaign in a subprocess; a saved inner case (from a violation) is replayed directly"""
+    import json
+    import os
+    import shutil
+    import subprocess
+    import sys
+    from vlib.runner import from_json
+    if "scn" in case:
+        return check(case)
+    root = os.path.dirname(os.path.dirname(os.path.abspath(__file__)))
+    try:
+        sys.path.insert(1, os.path.join(root, ".deps"))
+        import atheris  # noqa: F401
+    except Exception:  # noqa: BLE001
+        return False, ["atheris-unavailable"]
+    work = os.path.join(root, ".build", "fuzz-c03", "%d-%d" % (case["seed"], os.getpid()))
+    shutil.rmtree(work, ignore_errors=True)
+    os.makedirs(os.path.join(work, "corpus"))
+    # empty corpus for even shards, a few small valid inputs for odd ones
+    if case["fuzz_shard"] % 2:
+        for i, b in enumerate([b"\x00\x03abc\x00\x05hello\x02\x05\x09\x01\x02\x01", b"\x03\x01k\x00\x08END\r\n\r\n\x03\x01\x02\x03\x02\x01\x02",
+                               b"\x02\x02kk\x01\x10" + b"\r" * 16 + b"\x04\x10\x20\x30\x40\x00\x01"]):
+            open(os.path.join(work, "corpus", "seed%d" % i), "wb").write(b)
+    out, stats = os.path.join(work, "violation.json"), os.path.join(work, "stats.json")
+    env = dict(os.environ, PYTHONHASHSEED="0")
+    r = subprocess.run([sys.executable, os.path.join(root, "tools", "fuzz_c03.py"), out, stats, "-runs=%d" % case["runs"], "-seed=%d" % case["seed"],
+                        "-max_len=256", "-timeout=60", os.path.join(work, "corpus")], capture_output=True, text=True, env=env, cwd=work)
+    try:
+        if os.path.exists(out):
+            body = json.load(open(out))
+            v = Violation(body["signature"], body["message"] + " [found by atheris shard %d]" % case["fuzz_shard"])
+            v.case = from_json(body["case"])
+            raise v
+        if r.returncode != 0:
+            raise RuntimeError("fuzz target crashed (status %d): %s" % (r.returncode, (r.stderr or "")[-600:]))
+        st_ = json.load(open(stats)) if os.path.exists(stats) else {"runs": 0, "nontrivial": 0}
+        cov = [ln for ln in (r.stderr or "").splitlines() if "DONE" in ln]
+        sdir = os.path.join(root, ".build", "fuzz-c03", "stats")
+        os.makedirs(sdir, exist_ok=True)
+        json.dump({"shard": case["fuzz_shard"], "executions": st_["runs"], "nontrivial": st_["nontrivial"], "libfuzzer": cov[-1][:120] if cov else ""},
+                  open(os.path.join(sdir, "%d.json" % case["fuzz_shard"]), "w"))
+        return True, ["atheris-shard", "atheris-executions~%dk" % (st_["runs"] // 1000)]
+    finally:
+        shutil.rmtree(work, ignore_errors=True)
+
+
+def extra_coverage(tier):
+    import glob
+    import json
+    import os
+    root = os.path.dirname(os.path.dirname(os.path.abspath(__file__)))
+    if tier != "thorough":
+        return {"atheris": "not part of the quick tier"}
+    rows = [json.load(open(p)) for p in sorted(glob.glob(os.path.join(root, ".build", "fuzz-c03", "stats", "*.json")))]
+    if not rows:
+        return {"atheris": "skipped (atheris not importable)"}
+    return {"atheris": {"shards": len(rows), "executions": sum(r["executions"] for r in rows), "nontrivial_executions": sum(r["nontrivial"] for r in rows),
+                        "libfuzzer_last_status": [r["libfuzzer"] for r in rows][:4]}}
+
+
 PARTS = [
     Part("all-cut-subsets", "enum", check, cases=subsets_cases, exhaustive=True),
     Part("k-cuts", "enum", check, cases=kcut_cases, exhaustive=True),
     Part("long-streams", "enum", check, cases=long_cases),
     Part("random", "hyp", check, strategy=random_strategy,
          examples={"quick": 400, "thorough": 4000}, shards={"quick": 4, "thorough": 16}),
+    Part("atheris", "enum", check_fuzz, cases=fuzz_cases, tiers=("thorough",), shards={"quick": 1, "thorough": 16}),
 ]
 
 
